@@ -355,7 +355,7 @@ impl<'tcx> Cx<'tcx> {
 
     fn body(&self, did: rustc_hir::def_id::DefId) -> String {
         let tcx = self.tcx;
-        let body = if matches!(tcx.def_kind(did), DefKind::Const { .. }) { tcx.mir_for_ctfe(did) } else { tcx.optimized_mir(did) };
+        let body = if matches!(tcx.def_kind(did), DefKind::Const { .. } | DefKind::AssocConst { .. }) { tcx.mir_for_ctfe(did) } else { tcx.optimized_mir(did) };
         let mut s = String::new();
         let _ = write!(s, "{{\"path\":{},\"kind\":\"{:?}\"", esc(&tcx.def_path_str(did)), tcx.def_kind(did));
         let _ = write!(s, ",\"span\":{}", self.span(tcx.def_span(did)));
@@ -502,7 +502,7 @@ impl rustc_driver::Callbacks for Cb {
         let mut const_bodies = Vec::new();
         for ldid in tcx.hir_body_owners() {
             let did = ldid.to_def_id();
-            if matches!(tcx.def_kind(did), DefKind::Const { .. }) && tcx.opt_item_name(did).is_some() {
+            if matches!(tcx.def_kind(did), DefKind::Const { .. } | DefKind::AssocConst { .. }) && tcx.opt_item_name(did).is_some() {
                 const_bodies.push(cx.body(did));
             }
         }
